@@ -1103,7 +1103,14 @@ class SSHChannel(Generic[AnyStr], SSHPacketHandler):
             self.logger.debug2('Reading from channel resumed')
 
             self._recv_paused = False
-            self._flush_recv_buf()
+
+            try:
+                self._flush_recv_buf()
+            except ProtocolError as exc:
+                # Report invalid buffered data to the peer the same
+                # way as invalid data which is delivered as it arrives
+                if self._conn: # pragma: no branch
+                    self._conn.protocol_error(exc)
 
     def get_environment(self) -> Mapping[str, str]:
         """Return the environment for this session
